@@ -1,4 +1,5 @@
 SPECIFICATION Spec
+CONSTANT Deep = FALSE
 INVARIANT EmitInv
 INVARIANT BaseOK
 INVARIANT BanRule
